@@ -106,7 +106,13 @@ class _YieldingLock(asyncio.Lock):
         world = CURRENT
         if exc_type is None and world is not None \
                 and world.buggify('lock_yield'):
-            await asyncio.sleep(0)
+            try:
+                await asyncio.sleep(0)
+            except asyncio.CancelledError:
+                # asyncio.Lock.__aexit__ never suspends, so a cancellation
+                # cannot be delivered here in reality: hand it on to the
+                # task's next real suspension point instead
+                asyncio.current_task().cancel()
 
 
 class _LogCapture(logging.Handler):
